@@ -27,9 +27,7 @@ Catalog == <<
       Plain(<<T("b")>>, << << <<"b">>, <<"b","v1">>, <<"b","v2">> >> >>, <<>>),
       Plain(<<T("c"), TT>>, << << <<"c","p">> >>, << <<"c","p","q">> >> >>, <<>>),
       Plain(<<T("m"), ST, T("k"), ST>>, << << <<"m","1","k","1">> >>, << <<"m","1","k","2">>, <<"m","1","k","2","x">> >> >>, <<>>),
-      Plain(<<T(PrefixX), ST>>, << << <<PrefixX,"1">> >> >>, <<>>),
-      \* a rule written in the negated form whose next word begins with letters of the negation word: its removal command is `nx 1`
-      Plain(<<T(Prefix), T("nx"), ST>>, << << <<Prefix,"nx","1">> >> >>, <<>>) >>],
+      Plain(<<T(PrefixX), ST>>, << << <<PrefixX,"1">> >> >>, <<>>) >>],
   [name |-> "nest", rules |-> <<
       Plain(<<T("a"), ST>>, << << <<"a","1">> >> >>, <<>>),
       Plain(<<T("blk"), ST>>, << << <<"blk","1">> >> >>, <<
@@ -126,6 +124,11 @@ Catalog == <<
   [name |-> "slash-key", rules |-> <<              \* a placeholder with its own regex, `*/(e1/1|e1/2)/`: the regex (and the key) contain slashes
       Plain(<<T("port"), [t |-> "set", S |-> <<"e1/1", "e1/2">>, cap |-> TRUE]>>, << << <<"port","e1/1">> >>, << <<"port","e1/2">> >> >>, <<
           Plain(<<T("mtu")>>, << << <<"mtu">>, <<"mtu","9">> >> >>, <<>>) >>),
+      Plain(<<T("a"), ST>>, << << <<"a","1">> >> >>, <<>>) >>],
+  [name |-> "negated-form", rules |-> <<           \* rules written in the negated form whose next word begins with letters of the negation word
+      Plain(<<T(Prefix), T("nx"), ST>>, << << <<Prefix,"nx","1">> >>, << <<Prefix,"nx","2">> >> >>, <<>>),      \* removal command: `nx 1`
+      Plain(<<T("blk"), ST>>, << << <<"blk","1">> >> >>, <<
+          Plain(<<T(Prefix), T("ox")>>, << << <<Prefix,"ox">> >> >>, <<>>) >>),
       Plain(<<T("a"), ST>>, << << <<"a","1">> >> >>, <<>>) >>]
 >>
 
